@@ -90,11 +90,29 @@ def departure_unblocks(ctx, P, views, iters):
                 if st.status == "raise":
                     continue
                 pending = None
+
+                def loops_at_root(e):
+                    # the loops of the root method that enclose this event (an event inside a spliced helper counts at the helper's call site)
+                    node, fr = e.node, e.frame
+                    while fr.parent is not None and fr.callsite is not None:
+                        node, fr = fr.callsite, fr.parent
+                    out = []
+                    p_ = getattr(node, "_parent", None)
+                    while p_ is not None and not isinstance(p_, ast.FunctionDef):
+                        if isinstance(p_, (ast.For, ast.While)):
+                            out.append(id(p_))
+                        p_ = getattr(p_, "_parent", None)
+                    return out
                 for e in st.events:
                     if e.kind == "aug":
                         pending = e
                         n += 1
                     elif e.kind == "call":
+                        if pending is not None and not set(loops_at_root(pending)) <= set(loops_at_root(e)) and (cls.name, m, "loop") not in seen:
+                            seen.add((cls.name, m, "loop"))
+                            ctx.violation(ob, "R4.unblock", "%s.%s" % (cls.name, m), "self.number_of_individuals -= 1", "several-departures-one-unblock",
+                                          "customers leave inside a loop but release_blocked_individual() is called once after it: release_blocked_individual admits one "
+                                          "blocked customer per call, so with k departures k - 1 blocked customers stay blocked although there is room", pending.where, witness(st))
                         pending = None
                 if st.events:
                     ob.ok("%s.%s" % (cls.name, m), "%s.%s [%s]: %s" % (view.name, m, facts_text(st), " -> ".join(x.text for x in st.events)))
